@@ -181,6 +181,17 @@ impl Default for WorldOpts {
 impl World {
     pub async fn build(cfg: &WorldCfg, opts: &WorldOpts) -> World {
         let net = SimNet::new(cfg.net.clone(), server_addr());
+        {
+            // send-storm caps, proportional to the workload. A transfer needs roughly one
+            // datagram per kilobyte (one per window step with tiny windows, which the
+            // generators bound to ~400 steps per direction). Burst cap: datagrams at ONE
+            // virtual instant (with zero latency a whole transfer can legitimately happen
+            // at one instant). Total cap: whole run, including perpetual retransmission.
+            let bytes: u64 = cfg.streams.iter().map(|s| s.size as u64 + s.reply as u64).sum();
+            let mut g = net.0.lock().unwrap();
+            g.summary.burst_cap = (4_000 + bytes / 100).min(u32::MAX as u64) as u32;
+            g.datagram_cap = (150_000 + bytes / 50).min(u32::MAX as u64) as u32;
+        }
         tokio::spawn(net.pump());
         let router = Arc::new(QuicRouter::default());
         let manager = Arc::new(InterfaceManager::new());
@@ -460,8 +471,8 @@ async fn run_side(conn: Connection, side: Side, cfg: Arc<WorldCfg>, shared: Shar
             while seen < bidi_specs.len() {
                 match conn.accept_bi_stream().await {
                     Ok((sid, (reader, writer))) => {
-                        // stream ids of one kind are consecutive: index = id >> 2
-                        let k = (sid.id() >> 2) as usize;
+                        // stream ids of one kind are consecutive: StreamId::id() is the index
+                        let k = sid.id() as usize;
                         let Some(&i) = bidi_specs.get(k) else { continue };
                         seen += 1;
                         shared.lock().unwrap().streams[i].accepted = true;
@@ -499,7 +510,7 @@ async fn run_side(conn: Connection, side: Side, cfg: Arc<WorldCfg>, shared: Shar
             while seen < uni_specs.len() {
                 match conn.accept_uni_stream().await {
                     Ok((sid, reader)) => {
-                        let k = (sid.id() >> 2) as usize;
+                        let k = sid.id() as usize;
                         let Some(&i) = uni_specs.get(k) else { continue };
                         seen += 1;
                         shared.lock().unwrap().streams[i].accepted = true;
@@ -543,6 +554,8 @@ pub async fn run_workload(world: &World, cfg: &WorldCfg, deadline: Duration) -> 
     let net = world.net.clone();
 
     // server side
+    let server_conn: Arc<Mutex<Option<Connection>>> = Arc::new(Mutex::new(None));
+    let server_conn_slot = server_conn.clone();
     let server_task = {
         let (listeners, cfg, shared, net) = (world.listeners.clone(), cfg.clone(), shared.clone(), net.clone());
         tokio::spawn(async move {
@@ -550,6 +563,7 @@ pub async fn run_workload(world: &World, cfg: &WorldCfg, deadline: Duration) -> 
                 return None;
             };
             shared.lock().unwrap().server_accepted = true;
+            *server_conn_slot.lock().unwrap() = Some(conn.clone());
             run_side(conn.clone(), Side::Server, cfg, shared, net).await;
             Some(conn)
         })
@@ -567,10 +581,19 @@ pub async fn run_workload(world: &World, cfg: &WorldCfg, deadline: Duration) -> 
     };
 
     let storm = net.wait_storm();
-    let both = async {
-        let c = client_task.await.ok().flatten();
-        let s = server_task.await.ok().flatten();
-        (c, s)
+    let both = {
+        let shared = shared.clone();
+        async move {
+            let c = client_task.await.ok().flatten();
+            // a server that never saw the connection has no pending connection
+            // operation: listening for a connection that never arrives is not a hang
+            if !shared.lock().unwrap().server_accepted {
+                server_task.abort();
+                return (c, None);
+            }
+            let s = server_task.await.ok().flatten();
+            (c, s)
+        }
     };
     tokio::pin!(both);
     let conns = tokio::select! {
@@ -582,5 +605,13 @@ pub async fn run_workload(world: &World, cfg: &WorldCfg, deadline: Duration) -> 
     t.timed_out = conns.is_none();
     t.finished_at_us = Some(net.elapsed_us());
     drop(conns);
+    use futures::FutureExt;
+    if let Ok(c) = &client_conn {
+        t.client_terminated = c.terminated().now_or_never().map(|e| format!("{:?}: {}", e.kind(), e));
+        t.client_handshaked = c.handshaked().now_or_never().map(|r| r.map_err(|e| format!("{:?}", e.kind())));
+    }
+    if let Some(c) = server_conn.lock().unwrap().as_ref() {
+        t.server_terminated = c.terminated().now_or_never().map(|e| format!("{:?}: {}", e.kind(), e));
+    }
     t
 }
